@@ -54,18 +54,21 @@ def fill_cfg(r, base, n=None, t=None):
     return c
 
 
-def enumerate_cases(seed):
+def enumerate_cases(seed, sdir=None):
     """TLC enumerates the case space; returns {cfg key: (cfg step, [last steps])}."""
-    r = vlib.tlc("C12", FAMILY, "ClusterArtifactsGen", "ClusterArtifactsGen.cfg", workers=1, timeout=600)
+    r = vlib.tlc("C12", FAMILY, "ClusterArtifactsGen", "ClusterArtifactsGen.cfg", workers=1, timeout=600, sdir=sdir)
     if r.error or r.timed_out or r.violation:
         raise vlib.Infra("case enumeration failed: %s\n%s" % (r.summary(), r.out[-2000:]))
     groups = {}
     for p in vlib.tagged_prints(r, "SCHED"):
         s = json.loads(p)
-        if len(s) != 5 or [x["ev"] for x in s[:4]] != ["Cfg", "Create", "Load", "Verify"]:
+        flawed = s[0].get("flaw", "none") != "none"
+        if len(s) != (4 if flawed else 5) or [x["ev"] for x in s[:4]] != ["Cfg", "Create", "Load", "Verify"]:
             raise vlib.Infra("unexpected behaviour from the case enumeration: %s" % p[:300])
         k = json.dumps(s[0], sort_keys=True)
-        groups.setdefault(k, (s[0], []))[1].append(s[4])
+        g = groups.setdefault(k, (s[0], []))
+        if not flawed:
+            g[1].append(s[4])
     if len(groups) < 24:
         raise vlib.Infra("case enumeration incomplete: %d configurations" % len(groups))
     return groups, r
@@ -82,7 +85,14 @@ def build_schedules(seed, groups, thorough):
     for k in sorted(groups):
         cfg, steps = groups[k]
         steps = sorted(steps, key=case_key)
-        if cfg["src"] == "fort":
+        if cfg["src"] == "fort" and cfg["flaw"] != "none":
+            # an artifact with a built-in flaw: created (several sizes), loaded, verified - nothing else
+            for _ in range(3 if thorough else 1):
+                c = fill_cfg(r, cfg)
+                if c["t"] == c["n"] and cfg["flaw"] == "extrashare":
+                    c["t"] -= 1
+                fort.append([c, {"ev": "Create"}, {"ev": "Load", "node": 0}, {"ev": "Verify"}])
+        elif cfg["src"] == "fort":
             tam = list(steps)
             if not thorough:
                 # quick: every leaf keeps every alteration kind in at least one of its selectors; a seeded half of the rest
@@ -120,7 +130,7 @@ def build_schedules(seed, groups, thorough):
     # larger clusters: seeded subsets
     for n in ([6, 7, 8, 9, 10] if thorough else r.sample([6, 7, 8, 9, 10], 2)):
         t = r.choice([0, 0, r.randint(2, n)])
-        c = fill_cfg(r, {"ev": "Cfg", "src": "create", "art": "lock", "ver": "v1.11.0", "n": n, "t": t})
+        c = fill_cfg(r, {"ev": "Cfg", "src": "create", "art": "lock", "ver": "v1.11.0", "n": n, "t": t, "flaw": "none"})
         te = t or -(-2 * n // 3)
         steps = [{"ev": "Keystores", "node": i} for i in range(n)] + [{"ev": "Deposits", "node": r.randrange(n)}]
         for size in [te] * (6 if thorough else 3) + [te - 1] * (3 if thorough else 2) + [n, te + 1 if te < n else n, 1]:
@@ -207,6 +217,14 @@ def mutators():
                 return t
         return None
 
+    def flawed_accepted(t):
+        if t[0].get("flaw", "none") != "none":
+            for e in t:
+                if e.get("ev") == "Verify":
+                    e["hashes"], e["sigs"] = "ok", "ok"
+                    return t
+        return None
+
     def leaf_missing_from_table(t):
         for e in t:
             if e.get("ev") == "Leaves":
@@ -229,6 +247,7 @@ def mutators():
             ("recombined keys permuted", combine_wrong_key),
             ("loaded threshold differs from the requested one", wrong_threshold),
             ("a JSON leaf unknown to the protection table", leaf_missing_from_table),
+            ("an artifact with a share off the polynomial / a wrong signer reported as verified", flawed_accepted),
             ("deposit file entry with an invalid signature", deposit_bad_sig)]
 
 
@@ -241,22 +260,32 @@ DEV_CFGS = []
 def run(tier, seed):
     o = vlib.Outcome("C12", tier, seed)
     thorough = tier == "thorough"
-    # stage 0: design check of the declared protection + life-cycle, and controls that MUST be violated
-    cfg = "ClusterArtifactsMC.cfg" if thorough else "ClusterArtifactsMC_quick.cfg"
-    r = vlib.tlc("C12", FAMILY, "ClusterArtifactsMC", cfg, timeout=1500)
-    vlib.require_mc_ok(r, cfg)
-    o.add_mc(cfg[:-4], r)
-    log("[C12] design check %s: %s" % (cfg, r.summary()))
-    for cfg, inv, what in (("ClusterArtifactsMC_ctl_dropamount.cfg", "TamperEvident", "deposit_amounts[] not covered by any hash"),
-                           ("ClusterArtifactsMC_ctl_dropregfee.cfg", "TamperEvident", "registration fee recipient not covered by the lock hash"),
-                           ("ClusterArtifactsMC_ctl_order.cfg", "ShareConsistency", "keystores written in reversed node order"),
-                           ("ClusterArtifactsMC_ctl_reach.cfg", "NeverCombined", "life-cycle never reaches recombination")):
-        r = vlib.tlc("C12", FAMILY, "ClusterArtifactsMC", cfg, timeout=600)
-        if r.violation != inv:
-            raise vlib.Infra("design-spec control failed: '%s' not caught by %s: %s" % (what, inv, r.summary()))
+    # stage 0: design check of the declared protection + life-cycle, controls that MUST be violated, and (stage 1) the
+    # case enumeration - independent TLC runs, started together
+    from concurrent.futures import ThreadPoolExecutor
+    mcfg = "ClusterArtifactsMC.cfg" if thorough else "ClusterArtifactsMC_quick.cfg"
+    controls = (("ClusterArtifactsMC_ctl_dropamount.cfg", "TamperEvident", "deposit_amounts[] not covered by any hash"),
+                ("ClusterArtifactsMC_ctl_dropregfee.cfg", "TamperEvident", "registration fee recipient not covered by the lock hash"),
+                ("ClusterArtifactsMC_ctl_order.cfg", "ShareConsistency", "keystores written in reversed node order"),
+                ("ClusterArtifactsMC_ctl_reach.cfg", "NeverCombined", "life-cycle never reaches recombination"),
+                ("ClusterArtifactsMC_ctl_flaw.cfg", "NeverFlawRefused", "a flawed artifact is never refused"))
+    dirs = [vlib.scratch("C12", FAMILY) for _ in range(len(controls) + 2)]     # scratch() is not thread-safe
+    with ThreadPoolExecutor(max_workers=8) as ex:
+        fmc = ex.submit(vlib.tlc, "C12", FAMILY, "ClusterArtifactsMC", mcfg, timeout=1500, workers=max(4, vlib.NCPU // 2),
+                        sdir=dirs[0])
+        fctl = [ex.submit(vlib.tlc, "C12", FAMILY, "ClusterArtifactsMC", c, timeout=600, workers=2, sdir=d)
+                for (c, _, _), d in zip(controls, dirs[2:])]
+        fgen = ex.submit(enumerate_cases, seed, dirs[1])
+        r = fmc.result()
+        ctl = [f.result() for f in fctl]
+        groups, g = fgen.result()
+    vlib.require_mc_ok(r, mcfg)
+    o.add_mc(mcfg[:-4], r)
+    log("[C12] design check %s: %s" % (mcfg, r.summary()))
+    for (c, inv, what), rc in zip(controls, ctl):
+        if rc.violation != inv:
+            raise vlib.Infra("design-spec control failed: '%s' not caught by %s: %s" % (what, inv, rc.summary()))
         o.selftests.append({"control": "spec variant '%s' violates %s" % (what, inv), "rejected_as_required": True})
-    # stage 1: cases
-    groups, g = enumerate_cases(seed)
     o.add_mc("ClusterArtifactsGen(enumeration)", g)
     fort, created = build_schedules(seed, groups, thorough)
     log("[C12] %d cases enumerated by TLC in %.0fs -> %d fort + %d create schedules (%d steps); %.0fs so far"
@@ -277,7 +306,7 @@ def run(tier, seed):
                  for s in o.samples]
     # binding negative controls on recorded traces
     vlib.binding_selftest(o, FAMILY, "ClusterArtifactsTrace", "ClusterArtifactsTrace.cfg", tc + tf, mutators())
-    if len(o.selftests) < 4 + 10 and not o.violations:
+    if len(o.selftests) < 5 + 11 and not o.violations:
         raise vlib.Infra("binding self-test: some negative control found no applicable trace")
     return vlib.finish(o, "exploration", RULE,
                        ["the protection table is transcribed from the struct tags, the per-version JSON structs and the doc comments "
